@@ -324,6 +324,44 @@ func headerPart(c *vf.Ctx) {
 			return fmt.Sprintf("PIDHigh=%#x PIDLow=%#x GetPID()=%#x", l2.PIDHigh, l2.PIDLow, l2.GetPID())
 		})
 	}
+	// (c') SetPID on a header that already carries a PID (set before, assigned, or decoded): the new value replaces
+	// both halves - all ordered pairs of a small set with every combination of empty / non-empty halves
+	hist := []uint32{0, 1, 0x42, 0xFFFF, 0x10000, 0x12340000, 0x12345678, 0xFFFF0000, 0xFFFFFFFF}
+	for _, first := range hist {
+		for _, second := range hist {
+			for how := 0; how < 3; how++ {
+				l := header.NewHeader()
+				switch how {
+				case 0:
+					l.SetPID(first)
+				case 1:
+					l.PIDHigh, l.PIDLow = uint16(first>>16), uint16(first)
+				case 2:
+					src := header.NewHeader()
+					src.PIDHigh, src.PIDLow = uint16(first>>16), uint16(first)
+					b, err := src.Marshal()
+					if err != nil {
+						continue
+					}
+					if _, err := l.Unmarshal(b); err != nil {
+						continue
+					}
+				}
+				l.SetPID(second)
+				out, err := l.Marshal()
+				c.Case([]byte("pid2"), []byte(fmt.Sprint(first, second, how)))
+				ok := err == nil && l.GetPID() == second && l.PIDHigh == uint16(second>>16) && l.PIDLow == uint16(second)
+				if ok {
+					rh, _ := refsmb.DecodeHdr(out)
+					ok = rh.PID() == second
+				}
+				c.Check("C03/header/pid-split-on-a-header-that-carried-another-pid", ok, func() string {
+					return fmt.Sprintf("header with PID %#x (%s), then SetPID(%#x): PIDHigh=%#x PIDLow=%#x GetPID()=%#x wire=%x",
+						first, [...]string{"SetPID", "fields assigned", "decoded"}[how], second, l.PIDHigh, l.PIDLow, l.GetPID(), out)
+				})
+			}
+		}
+	}
 	c.Sample("header", map[string]any{"buffers_decoded": len(bufs), "pid_values": len(pids)})
 }
 
